@@ -341,11 +341,14 @@ def run(c):
         if t is not None:
             batch.append(t)
     # ---- TV: concurrent senders on one Packetizer under the deterministic scheduler (fixed stratum: every schedule with
-    # one preemption of 2 threads x 1 message, per framing mode with compression and once without; plus seeded random
-    # schedules of 3 threads x 2 messages).  Bounded by counts only.
-    plans = [(("aes128-ctr", "hmac-sha2-256", "zlib"), 2, 1, "dfs", 1, 150), (("aes256-cbc", "hmac-sha2-512-etm@openssh.com", "zlib"), 2, 1, "dfs", 1, 150),
-             (("aes128-gcm@openssh.com", "hmac-sha1", "zlib@openssh.com"), 2, 1, "dfs", 1, 150), (("3des-cbc", "hmac-md5", "none"), 2, 1, "dfs", 1, 150),
-             (("aes192-ctr", "hmac-sha1-96", "zlib"), 3, 2, "random", 0, 25 if c.quick else 300)]
+    # one preemption of 2 threads x 1 message on a compressed suite; plus seeded random schedules of 2-3 threads x 1-2
+    # messages on an ETM, an AES-GCM and an uncompressed suite).  Bounded by counts only.
+    nr = 20 if c.quick else 300
+    plans = [(("aes128-ctr", "hmac-sha2-256", "zlib"), 2, 1, "dfs", 1, 150),
+             (("aes256-cbc", "hmac-sha2-512-etm@openssh.com", "zlib"), 2, 1, "dfs" if not c.quick else "random", 1, 150 if not c.quick else nr),
+             (("aes128-gcm@openssh.com", "hmac-sha1", "zlib@openssh.com"), 2, 2, "random", 0, nr),
+             (("3des-cbc", "hmac-md5", "none"), 2, 1, "random", 0, nr),
+             (("aes192-ctr", "hmac-sha1-96", "zlib"), 3, 2, "random", 0, nr)]
     if not c.quick:
         plans.append((("aes128-ctr", "hmac-sha1", "zlib"), 2, 2, "dfs", 2, 2500))
     n_sched = 0
@@ -418,7 +421,7 @@ def run(c):
               "recv() sizes and socket timeouts, 0-3 key switches (40 %% to other algorithms), need_rekey raised on the receiver in half of them, a sending socket that takes random parts and times out in half of them, "
               "read through the loop of Transport.run (NeedRekeyException -> read again); concurrent senders: 2-3 threads calling send_message on one "
               "Packetizer under a deterministic scheduler (switch points: write-lock operations and every line of send_message), every schedule "
-              "with one preemption for 4 suites + seeded random schedules; distinct = distinct (suite, step sequence with concrete lengths) / "
+              "with one preemption on a compressed suite + seeded random schedules on four more suites; distinct = distinct (suite, step sequence with concrete lengths) / "
               "(suite, strict, shape) tuples" % (len(suites), per_suite))
     c.assumptions = ["both ends are given the same (K, H, session id) by the harness, as a completed key exchange would",
                      "zlib@openssh.com is exercised in its post-authentication state",
